@@ -343,11 +343,11 @@ Proof.
 Qed.
 
 (* reopening keeps every invariant, whatever value [g] the process-global counter has *)
-Lemma reopen_inv_gen g m :
-  Inv m -> InvKV m -> InvKC m ->
-  Inv (reopen_with g m) /\ InvKV (reopen_with g m) /\ InvKC (reopen_with g m).
+Lemma reopen_sound_gen g m :
+  Inv m -> InvKV m ->
+  Inv (reopen_with g m) /\ InvKV (reopen_with g m).
 Proof.
-  intros I KV KC.
+  intros I KV.
   destruct (reopen_fields g m) as (Er & Ec & Ek & Ent & Enc & Eseq & Ekeys & Eq). cbn zeta in *.
   destruct (load_winners_inv m KV) as (Hnd & Hwin & Hnone & Hdel & Hall).
   assert (Hseq : forall c r, aget (m_kvf m) c = Some r -> v_tx r = 0 -> v_seq r <= m_seq (reopen_with g m)).
@@ -362,7 +362,7 @@ Proof.
                  In v (lget (m_all m) k) /\ is_main v = true /\ v_key v = k /\ latest_main m k = Some v).
   { intros k v Hv. apply (In_reopen_all g m k v I KV) in Hv.
     destruct (latest_main_facts m k v I Hv) as (H1 & H2 & H3). auto. }
-  split; [|split].
+  split.
   - constructor.
     + intros k. rewrite (reopen_all g m k I KV). destruct (latest_main m k); repeat constructor.
     + intros k v Hv. destruct (Hlat k v Hv) as (H1 & H2 & H3 & _).
@@ -410,9 +410,29 @@ Proof.
       * exfalso. exact (Hnone _ Ew r Hrec Hm eq_refl).
     + apply (k_seq_inj m KV).
     + apply (k_keys m KV).
-  - constructor; rewrite ?Ec, ?Ek.
-    + apply (k_cont_rec m [] KC).
-    + intros c x Hc. destruct (k_cont_rec m [] KC c x Hc) as [r Hr].
+Qed.
+
+Lemma reopen_invKC_gen g m :
+  Inv m -> InvKV m -> InvKC m -> InvKC (reopen_with g m).
+Proof.
+  intros I KV KC.
+  destruct (reopen_fields g m) as (Er & Ec & Ek & Ent & Enc & Eseq & Ekeys & Eq). cbn zeta in *.
+  destruct (load_winners_inv m KV) as (Hnd & Hwin & Hnone & Hdel & Hall).
+  assert (Hseq : forall c r, aget (m_kvf m) c = Some r -> v_tx r = 0 -> v_seq r <= m_seq (reopen_with g m)).
+  { intros c r Hr Hm. destruct (k_record m KV c r Hr) as (Hc & _).
+    assert (Hrec : In r (map snd (m_kvf m))) by (apply (In_recs m r KV); rewrite Hc; exact Hr).
+    destruct (aget (fst (load_winners m)) (v_key r)) as [w|] eqn:Ew.
+    - destruct (Hwin _ _ Ew) as (_ & _ & _ & W4). specialize (W4 r Hrec Hm eq_refl).
+      apply aget_In in Ew. assert (Hge := fold_max_ge (fst (load_winners m)) 1 _ Ew). cbn [snd] in Hge.
+      rewrite Eseq. lia.
+    - exfalso. exact (Hnone _ Ew r Hrec Hm eq_refl). }
+  assert (Hlat : forall k v, In v (lget (m_all (reopen_with g m)) k) ->
+                 In v (lget (m_all m) k) /\ is_main v = true /\ v_key v = k /\ latest_main m k = Some v).
+  { intros k v Hv. apply (In_reopen_all g m k v I KV) in Hv.
+    destruct (latest_main_facts m k v I Hv) as (H1 & H2 & H3). auto. }
+  constructor; rewrite ?Ec, ?Ek.
+  - apply (k_cont_rec m [] KC).
+  - intros c x Hc. destruct (k_cont_rec m [] KC c x Hc) as [r Hr].
       destruct (k_record m KV c r Hr) as (H1 & _).
       assert (Hrec : In r (map snd (m_kvf m))) by (apply (In_recs m r KV); rewrite H1; exact Hr).
       destruct (Hall r Hrec) as [(k & Hk)|Hd].
@@ -421,6 +441,14 @@ Proof.
       * right. left. exists (snd (load_winners m)), r. split; [|auto].
         rewrite reopen_unfold. cbn zeta. apply In_q_enqueue; [|right; reflexivity].
         intros En. rewrite En in Hd. exact Hd.
+Qed.
+
+Lemma reopen_inv_gen g m :
+  Inv m -> InvKV m -> InvKC m ->
+  Inv (reopen_with g m) /\ InvKV (reopen_with g m) /\ InvKC (reopen_with g m).
+Proof.
+  intros I KV KC. destruct (reopen_sound_gen g m I KV) as [H1 H2].
+  split; [exact H1|]. split; [exact H2|]. exact (reopen_invKC_gen g m I KV KC).
 Qed.
 
 Lemma reopen_inv m : Inv m -> InvKV m -> InvKC m -> Inv (reopen m) /\ InvKV (reopen m) /\ InvKC (reopen m).
